@@ -646,6 +646,7 @@ func parseAlert(ID string, alert *gtfsrt.Alert, opts *ParseRealtimeOptions) (*Al
 		informedEntities = append(informedEntities, informedEntity)
 	}
 
+	numInformedEntitiesFromSelectors := len(informedEntities)
 	for routeID, directions := range informedRoutesFromTripIDs {
 		if informedRoutes[routeID] {
 			continue
@@ -674,6 +675,11 @@ func parseAlert(ID string, alert *gtfsrt.Alert, opts *ParseRealtimeOptions) (*Al
 			})
 		}
 	}
+	// Map iteration order is random; sort the routes added above so that the same alert always gives the same result.
+	routeEntities := informedEntities[numInformedEntitiesFromSelectors:]
+	sort.Slice(routeEntities, func(i, j int) bool {
+		return *routeEntities[i].RouteID < *routeEntities[j].RouteID
+	})
 
 	gtfsAlert := &Alert{
 		ID:               ID,
